@@ -728,3 +728,58 @@ theorem capture_equiv_root_iff (c : RCtx) (hinc : IncQuiet c) (hO : ∀ b, c.O.c
     (renderRoot c [.capture l1 x body, .obj l2 (.var x)] env).runPure = (out, .ok .done) ↔
       (renderRoot c body env).runPure = (out, .ok .done) :=
   ⟨capture_equiv_root_conv c hinc hO l1 l2 x body env out, capture_equiv_root c hinc hO l1 l2 x body env out⟩
+
+/-- **C12 (capture_equiv for the engine).** For the engine's own context — any primitives, the
+    standard output layer, any configuration, file system and include fuel — the two context
+    hypotheses of `capture_equiv_root_iff` are discharged: `BODY` and
+    `{% capture x %}BODY{% endcapture %}{{ x }}` render normally under the same conditions, and then
+    to the same bytes. -/
+theorem capture_equiv_engine (P : Prims) (cfg : Cfg) (fs : FS) (fuel : Nat)
+    (l1 l2 : Nat) (x : Bytes) (body : List Node) (env : Env) (out : Bytes) :
+    (renderRoot (mkCtx P stdOut cfg fs fuel) [.capture l1 x body, .obj l2 (.var x)] env).runPure = (out, .ok .done) ↔
+      (renderRoot (mkCtx P stdOut cfg fs fuel) body env).runPure = (out, .ok .done) :=
+  capture_equiv_root_iff (mkCtx P stdOut cfg fs fuel) (incQuiet_mkCtx P stdOut cfg fs fuel) stdOut_str l1 l2 x body env out
+
+/-- **C12 (capture_equiv, failing body).** If `BODY` as a template fails with error `e` (after
+    whatever partial output), `{% capture x %}BODY{% endcapture %}{{ x }}` fails with the same error
+    re-wrapped at the capture tag (`wrapError` keeps a located error's cause, message kind and — if
+    it has one — its line), and writes nothing. -/
+theorem capture_equiv_root_err (c : RCtx) (hinc : IncQuiet c)
+    (l1 l2 : Nat) (x : Bytes) (body : List Node) (env : Env) (part : Bytes) (e : RawErr)
+    (hbody : (renderRoot c body env).runPure = (part, .err e)) :
+    (renderRoot c [.capture l1 x body, .obj l2 (.var x)] env).runPure =
+      ([], .err (.located (wrapError c.cfg.path e ⟨l1, true⟩))) := by
+  obtain ⟨ops, o, ht⟩ := traced_renderList c hinc body env
+  have hother : ∀ o', TracedAt (renderList c body) env ops o' → (∀ env', o' ≠ .ok .done env') →
+      (renderRoot c body env).runPure.2 = match o' with
+        | .ok st _ => .ok st
+        | .err e => .err e
+        | .panic w => .panic w
+        | .unmodelled w => .unmodelled w := by
+    intro o' ht' hnd
+    rw [renderRoot_eq_blockBody, Prog.runPure_bind, tracedAt_blockBody_other c body env ops o' ht' hnd {}]
+    cases o' <;> simp [EOut.withTw, Prog.runPure]
+  cases o with
+  | ok st env' =>
+    cases st with
+    | done => rw [renderRoot_of_traced_done c body env env' ops ht] at hbody; simp at hbody
+    | brk e' => have := hother _ ht (by intro _ h; cases h); rw [hbody] at this; simp at this
+    | cont e' => have := hother _ ht (by intro _ h; cases h); rw [hbody] at this; simp at this
+  | err e' =>
+    have := hother _ ht (by intro _ h; cases h)
+    rw [hbody] at this
+    simp only [Prog.Outcome.err.injEq] at this
+    subst this
+    have hcap := captureM_of_traced_err (renderList c body) env ops e ht {}
+    simp [renderRoot, renderList, renderNode, wrapAt, bind, M.bind, hcap, Prog.bind, Prog.mapFail, Prog.runPure]
+  | panic w => have := hother _ ht (by intro _ h; cases h); rw [hbody] at this; simp at this
+  | unmodelled w => have := hother _ ht (by intro _ h; cases h); rw [hbody] at this; simp at this
+
+/-- Non-vacuity of `capture_equiv_root_err`: `a{% cycle "b" %}` outside a loop fails at the cycle tag (line 2) -/
+example :
+    (renderRoot demoCtx [.capture 1 [120] [.text 1 [97], .cycle 2 [] [98] []], .obj 3 (.var [120])] []).runPure =
+      ([], .err (.located (wrapError [] (.located ⟨2, true, .none, .cycleOutside⟩) ⟨1, true⟩))) :=
+  capture_equiv_root_err demoCtx demoCtx_quiet 1 3 [120] [.text 1 [97], .cycle 2 [] [98] []] [] []
+    (.located ⟨2, true, .none, .cycleOutside⟩) (by
+      simp [renderRoot, renderList, renderNode, wrapFailAt, M.mapFail, M.bind, M.pure, writeM, M.getVar, M.fail, cyclesOf,
+        Env.get, Prog.bind, Prog.mapFail, Prog.runPure, bind, pure, demoCtx, errorfAt, wrapError])
